@@ -900,46 +900,77 @@ example : setsMask mask [.a, .o] = mask .f - 64 ∧ setsMask mask [.q, .b] = 629
 
 /-! ## make_uset -/
 
-/-- FULL STATEMENT (not a theorem of the code): *for every request accepted by `make_uset` with
-one set word per request row, every DOF named by a request row carries that row's word*
-(`makeUset (.rows rows) nas = .ok tbl → nas.length = rows.length → tbl = wantedTbl rows nas`).
-It fails for a component list split over several rows, `[[1, 123], [1, 456]]` — see
-`make_uset_sets_needs_canon`.  Proved below for the documented request forms `Canon`: scalar point
-`[id, 0]`, grid `[id, 123456]`, grid DOF by DOF `[id, 1] … [id, 6]` (1-D ids: `make_uset_ids`).
+/-- `make_uset(dof, nasset)` (the code since fix a37d9b6), FULL strength: for EVERY request the
+code accepts, the table has one row per DOF named by a request row (component list `123456`-style,
+`0` for a scalar point), in request order, and each of these rows carries the set word of the
+request row that names it (`wantedTbl`); a single word goes to every row.  No restriction on how
+the component lists are written (a grid may be spread over several rows, `[[1,123],[1,456]]`). -/
+theorem make_uset_sets (rows : List (Nat × Nat)) (nas : List Nat) (tbl : List Row)
+    (h : makeUset (.rows rows) nas = .ok tbl) :
+    (nas.length = rows.length → tbl = wantedTbl rows nas) ∧
+    (∀ v, nas = [v] → tbl = wantedTbl rows (List.replicate rows.length v)) :=
+  makeUset_sets h
 
-`make_uset_sets_partial`: on such a request `make_uset` succeeds and the table is exactly the
-requested one, six rows per grid, one per scalar point, in request order, each with the set word
-of its request row; a single word goes to every row (for any request that passes the 6-DOF check). -/
+/-- … and the requests the code accepts are exactly those with one word or one word per row whose
+expansion passes the check of `makeUsetDof`: no component above 6, the non-zero DOF run `1 … 6`
+grid after grid (each grid has all six DOF, in order). -/
+theorem make_uset_accepts (rows : List (Nat × Nat)) (nas : List Nat) :
+    ((∃ tbl, makeUset (.rows rows) nas = .ok tbl) ↔
+      (nas.length = 1 ∨ nas.length = rows.length) ∧ ∃ edof, makeUsetDof (.rows rows) = .ok edof) ∧
+    (∀ edof, makeUsetDof (.rows rows) = .ok edof →
+      edof = rows.flatMap (fun r => (digits r.2).map fun d => (r.1, d)) ∧
+      (∀ p ∈ edof, p.2 ≤ 6) ∧
+      ∃ g, ((edof.filter fun p => decide (0 < p.2)).map (·.2)) =
+        (List.replicate g [1, 2, 3, 4, 5, 6]).flatten) := by
+  refine ⟨makeUset_ok_iff rows nas, fun edof h => ?_⟩
+  have hed := makeUsetDof_ok h
+  unfold makeUsetDof at h
+  simp only [expanddof] at h
+  cases he : expanddof2 rows with
+  | error e => rw [he] at h; cases h
+  | ok e =>
+      rw [he] at h
+      simp only [bind, Except.bind] at h
+      have h6 := ((expanddof2_spec rows).2 e he).2
+      split at h
+      · cases h
+      · rename_i hc
+        cases h
+        refine ⟨hed, h6, ?_⟩
+        by_cases hnil : ((edof.filter fun p => decide (0 < p.2)).map (·.2)) = []
+        · exact ⟨0, by rw [hnil]; rfl⟩
+        · refine ⟨((edof.filter fun p => decide (0 < p.2)).map (·.2)).length / 6, ?_⟩
+          by_contra hne
+          exact hc ⟨hnil, Or.inr hne⟩
+
+/-- the documented request forms (scalar point `[id, 0]`, grid `[id, 123456]`, grid DOF by DOF
+`[id, 1] … [id, 6]`) are accepted, so `make_uset_sets` is not vacuous: the table is the requested
+one; a wrong number of words is a `ValueError`. -/
 theorem make_uset_sets_partial (rows : List (Nat × Nat)) (hc : Canon rows) :
     (∀ nas, nas.length = rows.length → makeUset (.rows rows) nas = .ok (wantedTbl rows nas)) ∧
     (∀ v, makeUset (.rows rows) [v] = .ok (wantedTbl rows (List.replicate rows.length v))) ∧
     (∀ nas, nas.length ≠ 1 → nas.length ≠ rows.length → makeUset (.rows rows) nas = .error .value) := by
   refine ⟨fun nas hl => makeUset_canon hc nas hl, fun v => ?_, fun nas h1 h2 => ?_⟩
-  · rw [makeUset_scalar rows v _ (makeUsetDof_canon hc)]
-    have := zip_scalar v rows
-    rw [← this]
-    congr 1
-    generalize rows.flatMap expandRow = l
-    induction l with
-    | nil => rfl
-    | cons a t ih => simp [List.replicate_succ, ih]
+  · obtain ⟨tbl, ht⟩ := (makeUset_ok_iff rows [v]).mpr ⟨Or.inl rfl, _, makeUsetDof_canon hc⟩
+    rw [ht, (makeUset_sets ht).2 v rfl]
   · unfold makeUset
     rw [if_pos ⟨h1, h2⟩]
 
-/-- the hypothesis is needed: with the six components of a grid split over two request rows the
-code gives DOF 1 the first word, DOF 2 the second and leaves DOF 3-6 in no set at all, where the
-request asks for DOF 1-3 in the first and DOF 4-6 in the second set. -/
-theorem make_uset_sets_needs_canon :
-    makeUset (.rows [(1, 123), (1, 456)]) [2, 4] =
-      .ok [(1, 1, 2), (1, 2, 4), (1, 3, 0), (1, 4, 0), (1, 5, 0), (1, 6, 0)] ∧
-    wantedTbl [(1, 123), (1, 456)] [2, 4] =
-      [(1, 1, 2), (1, 2, 2), (1, 3, 2), (1, 4, 4), (1, 5, 4), (1, 6, 4)] := by
+/-- a grid whose component list is split over two request rows (the input of finding F38, repaired
+by a37d9b6): `make_uset([[1,123],[1,456],[2,0]], ['b','q','o'])` gives b, b, b, q, q, q for the grid
+and o for the scalar point. -/
+theorem make_uset_split_rows :
+    makeUset (.rows [(1, 123), (1, 456), (2, 0)]) [mask .b, mask .q, mask .o] =
+      .ok [(1, 1, mask .b), (1, 2, mask .b), (1, 3, mask .b), (1, 4, mask .q), (1, 5, mask .q),
+           (1, 6, mask .q), (2, 0, mask .o)] := by
   have d1 : digits 123 = [1, 2, 3] := by simp [digits, digitsRev]
   have d2 : digits 456 = [4, 5, 6] := by simp [digits, digitsRev]
-  constructor
-  · simp [makeUset, makeUsetDof, makeUsetWords, expanddof, expanddof2, expandRow, d1, d2, nrows,
-      rows2, spread, spreadG, bind, Except.bind]
-  · simp [wantedTbl, d1, d2]
+  have hd : makeUsetDof (.rows [(1, 123), (1, 456), (2, 0)]) =
+      .ok [(1, 1), (1, 2), (1, 3), (1, 4), (1, 5), (1, 6), (2, 0)] := by
+    simp [makeUsetDof, expanddof, expanddof2, expandRow, d1, d2, digits_zero, bind, Except.bind]
+  obtain ⟨tbl, ht⟩ := (makeUset_ok_iff _ [mask .b, mask .q, mask .o]).mpr ⟨Or.inr rfl, _, hd⟩
+  rw [ht, (makeUset_sets ht).1 rfl]
+  simp [wantedTbl, d1, d2, digits_zero]
 
 /-- 1-D ids are grids: the same table as the request `[id, 123456]` per id. -/
 theorem make_uset_ids (ids : List Nat) (g : Bool) (nas : List Nat) :
@@ -966,6 +997,7 @@ theorem make_uset_ids (ids : List Nat) (g : Bool) (nas : List Nat) :
     intro edof
     unfold makeUsetWords
     simp only [nrows, rows2, List.length_map]
+    rfl
   unfold makeUset
   simp only [nrows, List.length_map, hdof, hw]
 
